@@ -4,6 +4,7 @@ import (
 	"encoding/json"
 	"fmt"
 	"reflect"
+	"strings"
 	"testing"
 
 	kmip "github.com/ovh/kmip-go"
@@ -16,19 +17,19 @@ import (
 
 // Payload and object types registered at run time through the public registration API.
 type vendorReq struct {
-	A string `ttlv:"0x540101"`
+	A  string `ttlv:"0x540101"`
 	op kmip.Operation
 }
 type vendorResp struct {
-	B int32 `ttlv:"0x540102"`
+	B  int32 `ttlv:"0x540102"`
 	op kmip.Operation
 }
 type vendorReq2 struct {
-	C []byte `ttlv:"0x540103"`
+	C  []byte `ttlv:"0x540103"`
 	op kmip.Operation
 }
 type vendorResp2 struct {
-	D bool `ttlv:"0x540104"`
+	D  bool `ttlv:"0x540104"`
 	op kmip.Operation
 }
 
@@ -40,7 +41,9 @@ func (p *vendorResp2) Operation() kmip.Operation { return vendorOpOf(p) }
 // the registration API creates payloads with reflect.New: the operation a payload reports is looked up by type
 var vendorOps = map[string]kmip.Operation{}
 
-func vendorOpOf(p any) kmip.Operation { return vendorOps[reflect.TypeOf(p).Elem().Name()+currentVendorKey] }
+func vendorOpOf(p any) kmip.Operation {
+	return vendorOps[reflect.TypeOf(p).Elem().Name()+currentVendorKey]
+}
 
 var currentVendorKey string
 
@@ -96,6 +99,7 @@ func c06RegistryRun(steps []regStep) (string, error) {
 				want = "vendorObjA"
 			case "B":
 				want = "vendorObjB"
+				obj.Tag = 0x540121
 				obj.Kids = []*ttlvref.Node{{Tag: 0x540112, Type: ttlvref.TextString, B: []byte("t")}}
 			}
 			pl := &ttlvref.Node{Tag: tagResponsePayload, Type: ttlvref.Structure, Kids: []*ttlvref.Node{
@@ -109,6 +113,9 @@ func c06RegistryRun(steps []regStep) (string, error) {
 				}
 				return dec.TagAny(tagBatchItem, &it)
 			})
+			if derr != nil && strings.HasPrefix(derr.Error(), "panic:") {
+				return "decode-panics", fmt.Errorf("step %d: decoding an item with object type 0x%08X panics: %w", i, code, derr)
+			}
 			if want == "" {
 				if derr == nil {
 					return "unknown-object-type-accepted", fmt.Errorf("step %d: object type 0x%08X was never registered but decoded without error", i, code)
@@ -116,15 +123,14 @@ func c06RegistryRun(steps []regStep) (string, error) {
 				continue
 			}
 			if derr != nil {
-				// the object's own tag is resolved from its Go type name, which no tag table knows: a decode error is acceptable
-				// only if it is about the tag, never a wrong type
-				continue
+				return "registered-object-type-rejected", fmt.Errorf("step %d: object type 0x%08X is registered as %s but the Get response does not decode: %w", i, code, want, derr)
 			}
 			_, o, _ := objectOf(it.ResponsePayload)
-			if o != nil {
-				if got := reflect.TypeOf(o).Elem().Name(); got != want {
-					return "registered-object-type-not-used", fmt.Errorf("step %d: object type 0x%08X decodes to %s, registered type is %s", i, code, got, want)
-				}
+			if o == nil {
+				return "registered-object-type-not-used", fmt.Errorf("step %d: object type 0x%08X decodes to no object, registered type is %s", i, code, want)
+			}
+			if got := reflect.TypeOf(o).Elem().Name(); got != want {
+				return "registered-object-type-not-used", fmt.Errorf("step %d: object type 0x%08X decodes to %s, registered type is %s", i, code, got, want)
 			}
 		case "register", "reregister":
 			if s.Op == "reregister" && registered[code] == "" {
@@ -188,6 +194,10 @@ func TestC06RuntimeRegistration(t *testing.T) {
 	const name = "TestC06RuntimeRegistration"
 	rec := evid.New("C06", name, "stateful: sequences of {decode an implemented operation, decode a vendor operation, register a payload pair for a vendor operation, re-register another pair for it, register a vendor object type, decode a Get response naming it} through the public RegisterOperationPayload / RegisterObject APIs, "+
 		"in any order (in particular registering after the first decode); oracle: a vendor operation decodes to the pair registered last, to opaque TTLV before any registration; non-trivial = a registration happens after a decode; distinct by step list").Attach(t)
+	// a vendor object needs a tag of its own, known by Go type (as every built-in object has); done here and not in an
+	// init function so that only the process running this test sees the two extra tag names
+	ttlv.RegisterTag("VerifVendorObjectA", 0x540120, reflect.TypeFor[vendorObjA]())
+	ttlv.RegisterTag("VerifVendorObjectB", 0x540121, reflect.TypeFor[vendorObjB]())
 	rapid.Check(t, func(rt *rapid.T) {
 		regEpoch = (regEpoch + 8) % 0x00FFFF00 // a fresh window of codes for every execution (also while shrinking)
 		n := rapid.IntRange(2, 10).Draw(rt, "steps")
